@@ -117,6 +117,67 @@ theorem own_unit_kept (strict : Bool) (r r' : Reg) (f : Frame)
   rw [← get_eq_lookup] at hm ⊢
   exact updateColumns_ok_keeps strict r r' f h he c hc m hm
 
+/-! ## construction: each column gets the unit given for it -/
+
+theorem zip_keys_sublist (a b : List Str) : ((a.zip b).map (·.1)).Sublist a := by
+  induction a generalizing b with
+  | nil => simp
+  | cons x xs ih =>
+    cases b with
+    | nil => simp
+    | cons y ys => simpa using (ih ys).cons_cons x
+
+theorem zipReg_get_other (ps : List (Str × Str)) (r : Reg) (n : Str) (hn : n ∉ ps.map (·.1)) :
+    get (zipReg ps r) n = get r n := by
+  induction ps generalizing r with
+  | nil => simp [zipReg]
+  | cons p rest ih =>
+    obtain ⟨n0, u0⟩ := p
+    unfold zipReg
+    have h0 : ¬ n0 = n := by intro e; apply hn; simp [e]
+    have hr : n ∉ rest.map (·.1) := by intro e; apply hn; simp at e ⊢; exact Or.inr e
+    rw [ih _ hr, get_set]; simp [h0]
+
+theorem zipReg_get_mem (ps : List (Str × Str)) (r : Reg) (hnd : (ps.map (·.1)).Nodup) (p : Str × Str) (hp : p ∈ ps) :
+    get (zipReg ps r) p.1 = some { unit := p.2 } := by
+  induction ps generalizing r with
+  | nil => cases hp
+  | cons q rest ih =>
+    obtain ⟨n0, u0⟩ := q
+    have hnd' := List.nodup_cons.1 (by simpa using hnd : (n0 :: rest.map (·.1)).Nodup)
+    unfold zipReg
+    rcases List.mem_cons.1 hp with rfl | hin
+    · rw [zipReg_get_other rest _ _ hnd'.1, get_set]; simp
+    · exact ih _ hnd'.2 hin
+
+/-- **construction assigns units by position**: `Table(df, units=us)` that succeeds on a frame with rows
+    reports, for every `(column, unit)` pair of `zip(df.columns, us)`, exactly that unit under that column's
+    name — and (by `own_unit_kept`) keeps reporting it whatever is done to the other columns -/
+theorem make_own_units (f : Frame) (us : List Str) (strict : Bool) (i : Info)
+    (h : make f (some us) none strict = .ok i) (he : f.empty = false) :
+    ∀ p ∈ (f.cols.map (·.name)).zip us, ∃ m, Spec.lookup i.reg p.1 = some m ∧ m.unit = p.2 := by
+  unfold make at h
+  have hb : bothTruthy (some us) none = false := by simp [bothTruthy]
+  simp only [hb, Bool.false_eq_true, if_false, makeReg, attach, checkDataframe] at h
+  have hne : ¬ ((none : Option Frame) = some f) := by simp
+  simp only [hne, if_false] at h
+  cases hu : updateColumns strict (zipReg (f.names.zip us) []) f with
+  | mk r e =>
+    rw [hu] at h
+    cases e with
+    | some e => simp at h
+    | none =>
+      simp at h; subst h
+      intro p hp
+      have hnd := updateColumns_ok_names_nodup strict _ r f hu
+      have hsub : ((f.names.zip us).map (·.1)).Nodup := by
+        exact (zip_keys_sublist f.names us).nodup hnd
+      have hg0 := zipReg_get_mem (f.names.zip us) [] hsub p hp
+      have hpn : p.1 ∈ f.names := (List.of_mem_zip hp).1
+      obtain ⟨c, hc, hcn⟩ := List.mem_map.1 hpn
+      have := updateColumns_ok_keeps strict _ r f hu he c hc _ (by rw [hcn]; exact hg0)
+      exact ⟨_, by rw [← get_eq_lookup, ← hcn]; exact this, rfl⟩
+
 /-! ## every operation preserves `Good` (frame effects universally quantified) -/
 
 /-- **every operation preserves the invariant**, whatever frame it leaves behind (proved in
